@@ -1,8 +1,11 @@
 (* C11 — deterministic, history-independent, re-entrant.  PARTIAL by nature (DESIGN 10): threads and
    garbage collection are explored by the check, not proved.  Proved: the blueprint-collecting action
    sits exactly on the top-level alternatives of the regenerated grammar (so nothing is collected
-   during backtracking inside an element), and the model is a function of its arguments. *)
-From PyDBML Require Import PyStr Py Heap PP Analyses Actions Entry GenGrammar GrammarFacts.
+   during backtracking inside an element), and the model is a function of its arguments.
+   Proved in addition (proofs/Frame.v), for every source text, options and heap: a parse — successful or failing
+   half-way — writes to no object that existed before the call; the database it returns is the first object it creates;
+   so a later parse leaves every earlier result, and everything reachable from it, exactly as it was. *)
+From PyDBML Require Import PyStr Py Heap PP Analyses Actions Entry GenGrammar GrammarFacts Frame.
 Import ListNotations.
 
 Theorem C11_blueprints_collected_at_top_level_only :
@@ -18,3 +21,43 @@ Theorem C11_result_is_a_function_of_the_arguments :
   forall s1 s2 allow sq db h, s1 = s2 -> parser_parse s1 allow sq db h = parser_parse s2 allow sq db h.
 Proof. intros; subst; reflexivity. Qed.
 Print Assumptions C11_result_is_a_function_of_the_arguments.
+
+(* ---- no shared mutable state between parse calls ---- *)
+Theorem C11_parse_writes_only_to_objects_it_created :
+  forall source allow sq dq h h' r, parser_parse source allow sq dq h = (h', r) ->
+  length h <= length h' /\ (forall x, x < length h -> nth_error h' x = nth_error h x) /\
+  (forall d, r = Ok d -> d = length h /\ d < length h').
+Proof. exact parser_parse_frame. Qed.
+Print Assumptions C11_parse_writes_only_to_objects_it_created.
+
+Theorem C11_later_parse_leaves_earlier_results :
+  forall s1 a1 sq1 dq1 s2 a2 sq2 dq2 h0 h1 h2 r1 r2,
+  parser_parse s1 a1 sq1 dq1 h0 = (h1, r1) -> parser_parse s2 a2 sq2 dq2 h1 = (h2, r2) ->
+  (forall x, x < length h1 -> nth_error h2 x = nth_error h1 x) /\
+  (forall x, x < length h0 -> nth_error h2 x = nth_error h0 x) /\
+  (forall d1 d2, r1 = Ok d1 -> r2 = Ok d2 -> d1 < length h1 /\ length h1 <= d2).
+Proof. exact later_parse_leaves_earlier_results. Qed.
+Print Assumptions C11_later_parse_leaves_earlier_results.
+
+(* every store of the parse goes above the frame: the judgement the proof runs on, for the record *)
+Theorem C11_frame_judgement_of_parse :
+  forall n source allow sq dq, tri n (le n) (parser_parse source allow sq dq).
+Proof. exact t_parser_parse. Qed.
+Print Assumptions C11_frame_judgement_of_parse.
+
+(* non-vacuity: two actual parses, the second leaves the first database and its table untouched *)
+Example C11_two_parses_example :
+  let src1 := s2l "Table a {
+ id int
+}" in
+  let src2 := s2l "Table b {
+ x int
+}
+Ref: b.x > b.x" in
+  match parser_parse src1 false 0 1 [] with
+  | (h1, Ok d1) => match parser_parse src2 false 0 1 h1 with
+                   | (h2, r2) => (firstn (length h1) h2 = h1) /\ d1 = 0 /\ 1 < length h1 /\ length h1 < length h2
+                   end
+  | _ => False
+  end.
+Proof. vm_compute. repeat split; reflexivity || (repeat constructor). Qed.
